@@ -4,6 +4,7 @@ import HmfVerif.Gen.ExprWdmAlter
 import HmfVerif.Gen.ExprFlow
 import HmfVerif.Spec.Wdm
 import HmfVerif.Proofs.AnalysisWdm
+import HmfVerif.Spec.Wiring
 /-!
 # C17 — warm dark matter only suppresses, and reduces to CDM for heavy particles
 -/
@@ -115,5 +116,11 @@ end
 /-- the factor increases with mass (real-analysis statement used with the equalities above) -/
 theorem recalibration_monotone_in_mass (g M β : ℝ) (hg : 0 ≤ g) (hM : 0 ≤ M) (hβ : 0 ≤ β) (m1 m2 : ℝ) (h1 : 0 < m1) (h12 : m1 ≤ m2) :
     (1 + g * M / m1) ^ (-β) ≤ (1 + g * M / m2) ^ (-β) := recal_mono g M β hg hM hβ m1 m2 h1 h12
+
+/-- the WDM component gets the particle mass, the object's cosmology and z; the recalibration gets the CDM dn/dm, the masses and
+    the WDM component -/
+theorem wdm_component_wiring :
+    Gen.Flow.wiring.lookup "TransferWDM.wdm" = some Spec.Wiring.wdm ∧
+    Gen.Flow.wiring.lookup "MassFunctionWDM.dndm" = some Spec.Wiring.alter := by decide
 
 end Hmf.C17
